@@ -234,15 +234,17 @@ class DomainParser:
             self.logger.warning("Received an action with no preconditions.")
             return
 
-        if preconditions_ast[0] != "and" and len(preconditions_ast[1:]) > 1:
-            raise SyntaxError(
-                f"Only accepting conjunctive preconditions! Action - {new_action.name} does not conform!"
-            )
+        if preconditions_ast[0] != "and":
+            # a body that is a single condition, e.g. (p ?x) or (not (p ?x)), is a conjunction of one item.
+            conjuncts = [preconditions_ast]
+
+        else:
+            conjuncts = preconditions_ast[1:]
 
         action_preconditions = CompoundPrecondition()
         self.preconditions_parser.parse(
             precondition_root=action_preconditions.root,
-            preconditions_ast=preconditions_ast[1:],
+            preconditions_ast=conjuncts,
             domain_functions=domain_functions,
             domain_types=domain_types,
             domain_predicates=domain_predicates,
